@@ -16,8 +16,10 @@ Driver streams for C16.
   observed after every step.  The verdict is an independent account in terms of
   `refSplit` only: tokens are the reference fields in order, `Complete` of the
   final token is the reference flag, `Next` stays false once false, and the bytes
-  obtained from `Rest` are exactly the suffix of the input after a prefix whose
-  reference fields are the tokens seen so far.
+  obtained from `Rest` are EXACTLY the input minus the bytes consumed to deliver the
+  tokens seen so far: minus `Spec.Posix.consumedPrefix` — the shortest prefix whose
+  reference fields are these tokens with the last one terminated — or, once `Next`
+  has returned false or the last token ran to the end of the input, nothing.
 -/
 namespace MdsVerif.Drv.C16
 open MdsVerif.Drv MdsVerif.Drv.ShellFmt MdsVerif.Model.Shell MdsVerif.Spec
@@ -153,8 +155,18 @@ def specStep (s : S) (toks : List String) (impl : String) : S × String :=
       let n := s.input.length - r.length
       let consumed := s.input.take n
       let rc := Posix.refSplit consumed
+      -- what must be left, from the reference tokenizer alone: nothing once `Next` has returned false
+      -- (the end of the input or the read error was reached); otherwise the input minus the shortest
+      -- prefix that ends the tokens returned so far (`Posix.consumedPrefix`); nothing if there is no
+      -- such prefix (the last token ran to the end of the input)
+      let want : Bytes :=
+        if s.dead then []
+        else match Posix.consumedPrefix s.yielded s.input with
+          | some p => s.input.drop p.length
+          | none => []
       (s', firstBad [
         (s.input.drop n == r, "Rest is not a suffix of the input"),
+        (r == want, s!"Rest does not return exactly the bytes the scanner had not consumed to deliver the tokens so far: want {hexBytes want}"),
         (if s.dead && s.tail == .fail then s.yielded.isPrefixOf rc.1 else rc.1 == s.yielded,
           s!"tokens so far differ from the reference fields of the consumed prefix {fmtFields rc.1}"),
         (rerr == (if s.tail == .eof then "nil" else "E"), "terminal condition of the Rest reader")])
